@@ -248,6 +248,7 @@ func runCase(c c03Case) (f *vh.Failure) {
 						return false, nil
 					}
 				}
+				libCalls := 0
 				for !gotFinal && !aborted {
 					lastAct = 0
 					fed := allFed.Load()
@@ -257,6 +258,7 @@ func runCase(c c03Case) (f *vh.Failure) {
 						runtime.Gosched()
 						continue
 					}
+					libCalls++
 					if (lastAct == 3 || lastAct == 4 || lastAct == 5 || lastAct == 6) && !errors.Is(err, errCB) {
 						wcancel()
 						return vh.Failf("C03/callback-error-not-returned", "%s: the callback failed (plan action %d) but NextPackageUntil returned %v", where, lastAct, err)
@@ -272,6 +274,36 @@ func runCase(c c03Case) (f *vh.Failure) {
 						}
 					case errors.Is(err, errCB):
 						aborted = true
+						// the server's messages are packages of the response too: those that came
+						// before the package the callback failed on are not lost, the error carries
+						// them (judged when one call consumed the response up to there)
+						if libCalls == 1 {
+							k, n := 0, 0
+							for _, x := range r.Pkgs {
+								if x.EED != nil && x.EED.Status&rc.EEDInfo == 0 {
+									k++
+									continue
+								}
+								if respgen.Filtered(x) {
+									continue
+								}
+								if n++; n == len(seen) {
+									break
+								}
+							}
+							var ee *tds.EEDError
+							if k > 0 && (!errors.As(err, &ee) || len(ee.EEDPackages) < k) {
+								have := 0
+								if ee != nil {
+									have = len(ee.EEDPackages)
+								}
+								wcancel()
+								return vh.Failf("C03/messages-lost-from-callback-error", "%s: the callback failed on package %d; %d server messages precede it in the response, the error carries %d (%v)", where, len(seen), k, have, err)
+							}
+							if k > 0 {
+								vh.Label("callback-error-carries-the-messages")
+							}
+						}
 					default:
 						wcancel()
 						return vh.Failf(cls("C03/missing-final-done"), "%s: NextPackageUntil returns %v after the callback saw [%s] (expected [%s])", where, err, kinds(seen), respgen.Describe(model))
